@@ -2,7 +2,7 @@
 
 SPEC  IPFSConnMC: daemon process (go-ipfs-pinner semantics + one scripted behaviour per request) and the
       connector transcribed from ipfshttp.go; every predicate of the statement (SuccessSound, FailureReported,
-      NoRedundantRequest, UnpinIdempotent, StallGivesUp, UpdateOnlyIfRecursive, SourceKept) on every terminal
+      NoRedundantRequest, UnpinIdempotent, StallGivesUp, UpdateOnlyIfRecursive, SourceKept, OriginsBestEffort) on every terminal
       state, exhaustively.  Two deliberate "what if" runs show the design-level findings (no trailer check,
       no watchdog on pin/update) as model counterexamples; they only count if the real code follows them.
 GEN   TLC prints one script per terminal state of the model (call + prior pin table + behaviour per request).
@@ -48,11 +48,15 @@ def decorate(c, rng, i, origins=None):
         else:
             c["norig"] = rng.choice(origins)
         c["obeh"] = [rng.choice(OBEH) for _ in range(c["norig"])]
+    # the daemon hangs on (some of) the swarm/connect requests this pin may send
+    c["ohang"] = "stall" in c["obeh"][:10]
     c["nontrivial"] = any(b != "ok" for b in c["beh"]) or c["intf"] != "keep"
     return c
 
 
 def key_of(pred, rec):
+    if pred == "OriginsBestEffort":
+        return "C16:pin:origins-hang:no-timeout" if rec["in"].get("ohang") else "C16:pin:hangs:no-timeout"
     reqs = rec["out"]["reqs"]
     last = reqs[-1] if reqs else {"ep": "none", "beh": "none"}
     return "C16:%s:%s:%s:%s" % (pred, rec["in"]["op"], last["ep"], last["beh"])
@@ -79,7 +83,8 @@ def run(ctx):
     ctx.exhaustive = True
     if not ctx.quick():
         ctx.tlc("IPFSConnMC.tla", "IPFSConnMC_ideal.cfg", workers=8, timeout=1500, count=False)
-    for cfg, what in (("IPFSConnMC_ascoded_stall.cfg", "a stalled pin/update is never given up (no watchdog on that path)"),
+    for cfg, what in (("IPFSConnMC_waitorigins.cfg", "waiting for the swarm/connect answers lets a hanging origin hang the pin"),
+                      ("IPFSConnMC_ascoded_stall.cfg", "a stalled pin/update is never given up (no watchdog on that path)"),
                       ("IPFSConnMC_notrailer.cfg", "without the X-Stream-Error check a late pin/add error reads as success")):
         r = ctx.tlc("IPFSConnMC.tla", cfg, workers=2, timeout=600, count=False, expect_violation=True)
         if not r.violation:
@@ -146,6 +151,11 @@ def validate(ctx, trace):
                           "holds %s" % (pred, rec["in"]["op"], json.dumps(rec["in"]["prior"]), rec["in"]["beh"],
                                         rec["out"]["res"], json.dumps(rec["out"]["pins"])), rec)
     drift_only = [i for i in drift if i not in bad]
+    if len(drift_only) > max(10, len(recs) // 50):
+        print("SPEC-DRIFT examples: %s" % json.dumps([recs[i - 1] for i in drift_only[:3]]), flush=True)
+        raise vcheck.Infra("%d of %d recorded outcomes satisfy every property predicate but are not what the transcription "
+                           "of ipfshttp.go produces: the specification is out of date with the code (not a verdict)"
+                           % (len(drift_only), len(recs)))
     if drift_only:
         print("SPEC-DRIFT: %d recorded outcomes satisfy the property but are not what the transcription of ipfshttp.go "
               "produces (first: %s)" % (len(drift_only), json.dumps([recs[i - 1] for i in drift_only[:3]])), flush=True)
